@@ -38,6 +38,16 @@ func main() {
 	a, b := P(1, 0, 0), P(1, 1e-170, 0)
 	fmt.Printf("G2 a=%g b=%g (distinct, unit: %v %v)\n   Interpolate(0.5,a,b)=%v  want a point within 1e-15 of a\n   DistanceFraction(a,a,b)=%v  want 0\n",
 		a.Vector, b.Vector, a.IsUnit(), b.IsUnit(), s2.Interpolate(0.5, a, b).Vector, s2.DistanceFraction(a, a, b))
+	// G3: for an edge a few ulps long (here a and b are the same direction, different floats) and x
+	// next to the antipode of a, the wedge test of interiorDist is decided by rounding noise: the
+	// "interior" distance ~0 is returned although every point of the edge is ~pi away.
+	{
+		a, b := P(0.5773502691896258, 0.5773502691896258, 0.5773502691896258), P(0.5773502691896257, 0.5773502691896257, 0.5773502691896257)
+		x := P(-0.5773502691896257, -0.577350269189626, -0.5773502691896258)
+		d, _ := s2.UpdateMinDistance(x, a, b, s1.InfChordAngle())
+		fmt.Printf("G3 a=%g b=%g x=%g (unit: %v %v %v)\n   UpdateMinDistance=%g DistanceFromSegment=%v  x.Distance(a)=%v x.Distance(b)=%v  want pi within 1e-7\n   IsDistanceLess(x,a,b,1e-20)=%v  want false\n",
+			a.Vector, b.Vector, x.Vector, a.IsUnit(), b.IsUnit(), x.IsUnit(), float64(d), s2.DistanceFromSegment(x, a, b), x.Distance(a), x.Distance(b), s2.IsDistanceLess(x, a, b, 1e-20))
+	}
 	pl := s2.Polyline{a, b}
 	p, next := pl.Interpolate(0.5)
 	fmt.Printf("   Polyline{a,b}.Validate()=%v  Interpolate(0.5)=(%v,%d)  Uninterpolate(a,1)=%v\n", pl.Validate(), p.Vector, next, pl.Uninterpolate(a, 1))
